@@ -9,7 +9,7 @@ RULE = ('per wire type: values -> real Type.send vs extracted model enc (byte-ex
         'real Type.read vs model dec (value, exact consumption); every strict prefix of every generated encoding must raise; a '
         'malformed stream for decoders. Exhaustive for 8/16-bit integers, booleans, all 256 angle bytes; boundary + seeded random '
         'for wider integers, floats (bit patterns incl. zeros, subnormals, infinities), strings of every UTF-8 width and lengths '
-        'around the 1/2/3-byte prefix boundaries, byte arrays, UUIDs, fixed point, nested arrays. Non-trivial = value other than '
+        'around the 1/2/3-byte prefix boundaries, byte arrays, UUIDs, fixed point, nested arrays; all type objects of the run are constructed before any is used. Non-trivial = value other than '
         'the type\'s zero; distinct by (type, value).')
 
 CC = [True, True, True]
@@ -165,8 +165,8 @@ def arith_oracle(ty, v):
     return None
 
 
-def run_type(chk, label, ty, good, bad):
-    obj = codec.ft_obj(ty)
+def run_type(chk, label, ty, good, bad, obj=None):
+    obj = obj if obj is not None else codec.ft_obj(ty)
     sxt = codec.ft_sx(ty)
     vals = [(v, True) for v in good] + [(v, False) for v in bad]
     reqs = []
@@ -293,8 +293,12 @@ def run_type(chk, label, ty, good, bad):
 
 def run(chk):
     common.standard_proof(chk, 'Properties/C02.v')
-    for label, ty, good, bad in cases(chk):
-        run_type(chk, label, ty, good, bad)
+    T = cases(chk)
+    # every type object is constructed before any is used: parametrised types over the same base type coexist in packet
+    # definitions, so one must not disturb another
+    objs = [codec.ft_obj(ty) for _label, ty, _g, _b in T]
+    for (label, ty, good, bad), obj in zip(T, objs):
+        run_type(chk, label, ty, good, bad, obj)
     chk.assumptions += ['Python struct / str.encode / bytes.decode / uuid.UUID are library code mirrored by executable Gallina re-implementations and validated here',
                         'floats: the harness maps Python floats to IEEE bit patterns through float.hex()/frexp, independently of struct',
                         'Angle.send / FixedPoint use binary64 arithmetic; the model is exact-rational; inputs within 1e-9 of a rounding tie are excluded']
@@ -302,6 +306,8 @@ def run(chk):
 
 def replay(chk, rp):
     c = rp['case']
-    for label, ty, good, bad in cases(chk):
+    T = cases(chk)
+    objs = [codec.ft_obj(ty) for _label, ty, _g, _b in T]
+    for (label, ty, good, bad), obj in zip(T, objs):
         if label == c['type']:
-            run_type(chk, label, ty, good, bad)
+            run_type(chk, label, ty, good, bad, obj)
